@@ -733,12 +733,34 @@ pub fn arb_number_text() -> BoxedStrategy<String> {
         Just("1.00000000000000011102230246251565404236316680908203125".to_string()),
         Just("1.00000000000000011102230246251565404236316680908203124".to_string()),
         Just("1.00000000000000011102230246251565404236316680908203126".to_string()),
+        // long exponent fields whose leading zeros make the real exponent small
+        Just("1E+0000000005".to_string()),
+        Just("2.5e-0000000003".to_string()),
+        Just("1e00000000000000000001".to_string()),
+        Just("-7E-00000000000000000000".to_string()),
+        Just("1e0000000000308".to_string()),
+        Just("1e0000000000309".to_string()),
+        Just("0e99999999999999999999".to_string()),
+        Just("0.000e-99999999999999999999".to_string()),
+        Just("1e-99999999999999999999".to_string()),
+        Just("1e99999999999999999999".to_string()),
     ];
     let general = (
         any::<bool>(),
         int_part,
         proptest::option::weighted(0.5, digits(1..20)),
-        proptest::option::weighted(0.4, (any::<bool>(), 0u8..3, prop_oneof![digits(1..3), Just("308".to_string()), Just("324".to_string()), Just("400".to_string()), Just("0".to_string()), Just("22".to_string())])),
+        proptest::option::weighted(
+            0.4,
+            (
+                any::<bool>(),
+                0u8..3,
+                (
+                    prop_oneof![4 => Just(0usize), 1 => 1usize..4, 1 => 8usize..14],
+                    prop_oneof![digits(1..3), Just("308".to_string()), Just("324".to_string()), Just("400".to_string()), Just("0".to_string()), Just("22".to_string())],
+                )
+                    .prop_map(|(z, d)| format!("{}{}", "0".repeat(z), d)),
+            ),
+        ),
     )
         .prop_map(|(neg, i, f, e)| {
             let mut s = String::new();
